@@ -10,7 +10,7 @@ from .roles import CONFIG_ATTR, VIEWS, roles
 
 RENAMES = {"_execute_transition_sync": "_execute_transition", "_process_single_transition": "_execute_transition",
            "_process_transient_transitions": "_settle_transient_transitions",
-           "_resolve_target_state_robustly": "_resolve_target_state_node", "_is_processing": "_processing"}
+           "_resolve_target_state_robustly": "_resolve_target_state_node"}
 
 # (pair, construct) -> reason.  Differences between the two engines that do not change any observable C05 compares.
 ACCEPTED = {
